@@ -616,3 +616,57 @@ def k3(facts, tier):
              f"both ends derive a {key_len(a)}-byte key by {[c for c, _ in sa][:2]}" if ok else
              f"key derivation differs between save ({sa}, key {key_len(a)} bytes) and load ({sb}, key {key_len(b)} bytes): "
              f"a file cannot be read back with the password it was written with")
+
+
+# ---------------------------------------------------------------------------------------------
+# W14: sequences are written and rebuilt in container order
+
+ORDER_ALTERING = ("rev", "as_slices", "as_mut_slices", "sort", "sort_by", "sort_by_key", "sort_unstable", "sort_unstable_by", "reverse",
+                  "rotate_left", "rotate_right", "push_front", "swap", "swap_remove", "split_off", "drain", "rsplit", "rchunks", "pop")
+SEQ_HEADS = ("alloc::vec::Vec<", "alloc::collections::vec_deque::VecDeque<", "[", "&[", "alloc::boxed::Box<[", "alloc::sync::Arc<[",
+             "arrayvec::arrayvec::ArrayVec<", "smallvec::SmallVec<", "alloc::collections::binary_heap::BinaryHeap<", "alloc::string::String",
+             "str", "&str")
+
+
+@rule("W14", ["C01", "C02"], floor=10, doc="ordered sequences (Vec, VecDeque, slices, arrays, ArrayVec, SmallVec, strings) are written in iteration order and rebuilt "
+      "by appending in read order: their Serialize/Deserialize impls and helpers use no order-altering operation (rev, as_slices, "
+      "sort, rotate, push_front, swap, drain ...)")
+def w14(facts, tier):
+    from .wire_rules import impl_pairs
+    sers, des = impl_pairs(facts)
+    todo = []
+    for (ty, fid), (f, _) in list(sers.items()) + list(des.items()):
+        st = (f.get("impl") or {}).get("self_ty", "")
+        if st.startswith(SEQ_HEADS):
+            todo.append(f)
+    seen = set()
+    for f in todo:
+        # the impl and the local helpers it calls
+        stack, fns = [f], []
+        while stack:
+            g = stack.pop()
+            if g["id"] in seen and g is not f:
+                continue
+            fns.append(g)
+            for x in walk(g["body"]):
+                if x.get("k") == "Call":
+                    t = (x.get("res") or {}).get("fn") or x.get("fn")
+                    h = facts.fns.get(t)
+                    if h is not None and h["crate"] == "savefile" and not (h.get("impl") or {}).get("trait") and h["id"] not in {z["id"] for z in fns} \
+                            and not h["id"].startswith(("savefile::Serializer<", "savefile::Deserializer<")):
+                        stack.append(h)
+        bad = []
+        for g in fns:
+            for x in walk(g["body"]):
+                if x.get("k") == "Call":
+                    name = (callee(x) or "").rsplit("::", 1)[-1]
+                    if name in ORDER_ALTERING:
+                        bad.append(f"{name} in {g['id']}")
+        key = f["id"]
+        if key in seen:
+            continue
+        seen.add(key)
+        yield ob(["C01", "C02"], "W14", key, "violation" if bad else "pass", where(f),
+                 f"{key}: order-altering operation(s) {sorted(set(bad))[:3]}: elements are no longer written/rebuilt in sequence order "
+                 f"(equal values give different bytes; a round trip can return a permuted sequence)" if bad
+                 else "elements are written / appended in sequence order")
